@@ -89,6 +89,7 @@ type env struct {
 	cur        Stmt // statement being executed (failure position)
 	rangeDepth int // number of range bodies currently running (per executed template)
 	retCount   int // number of return statements executed so far
+	execDepth  int // number of exec calls in progress
 	mapPerm int // which permutation of 2-entry maps to use
 	sawMap2 bool
 	depth   int
@@ -580,7 +581,8 @@ func (e *env) invoke(b *blockRef, args []Param, ctxExpr Expr, contentBody []Stmt
 			e.fail("yield-arg-without-value", at)
 		}
 		if !declared[a.Name] {
-			panic(Unspec("yield argument the block does not declare"))
+			// an argument the block does not declare is still a variable of the block body's scope
+			pnames = append(pnames, a.Name)
 		}
 		if given[a.Name] {
 			panic(Unspec("yield argument given twice"))
@@ -599,9 +601,11 @@ func (e *env) invoke(b *blockRef, args []Param, ctxExpr Expr, contentBody []Stmt
 	for _, a := range args {
 		vals[a.Name] = e.evalInParent(a.Val, needScope)
 	}
+	for _, a := range args {
+		e.sc.vars[a.Name] = vals[a.Name]
+	}
 	for _, p := range b.def.Params {
 		if given[p.Name] {
-			e.sc.vars[p.Name] = vals[p.Name]
 			continue
 		}
 		if p.Val == nil {
@@ -922,6 +926,11 @@ func (e *env) include(nameX, ctxX Expr, at interface{}, rel bool, optional bool)
 	if e.retCount != rc && e.rangeDepth > 0 {
 		// whether a return inside an included template ends the includer's loop is not fixed anywhere
 		panic(Unspec("return executed in an included template while the includer is inside a range"))
+	}
+	if e.retCount != rc && optional && e.execDepth > 0 {
+		// includeIfExists is an expression: whether a return inside the template it renders reaches the
+		// enclosing exec is not fixed by the statement
+		panic(Unspec("return executed in a template rendered by includeIfExists"))
 	}
 	return true
 }
